@@ -74,7 +74,7 @@ func b01(b bool) string {
 
 func init() {
 	checks["C16"] = func(tier string, seed uint64, res *Result) error {
-		res.Rule = "NewClient / NewServer / SetEncoding on generated URL strings (valid schemes, near misses: case, missing slashes, truncated/extended scheme names, empty parts, embedded ://, non-ASCII, random prefixes) x all combinations of zero/non-zero optional fields x credentials present/absent, all selector values 0..3; effective configuration compared with the Lean model and with the documented scheme table; per scheme one real first request over a real socket (tcp, udp, tls, pty) to observe socket type and framing; distinct = (constructor, scheme class, field mask, outcome)"
+		res.Rule = "NewClient / NewServer / SetEncoding on generated URL strings (valid schemes, near misses: case, missing slashes, truncated/extended scheme names, empty parts, embedded ://, non-ASCII, random prefixes) x all combinations of zero/non-zero optional fields x credentials present/absent, selector values 0..3 and values that look valid only in their low 8/16/32 bits; effective configuration compared with the Lean model and with the documented scheme table; per scheme one real first request over a real socket (tcp, udp, tls, pty) to observe socket type and framing; distinct = (constructor, scheme class, field mask, outcome)"
 		r := NewRng(seed)
 		var cs []kv
 		n := scale(tier, 4000, 60000)
@@ -230,8 +230,13 @@ func init() {
 		}
 		for _, e0 := range []uint{1, 2} {
 			for _, w0 := range []uint{1, 2} {
-				for e := uint(0); e < 4; e++ {
-					for w := uint(0); w < 4; w++ {
+				// 0..3 and selectors that look valid only in their low byte / low 16 or 32 bits
+				sel := []uint{0, 1, 2, 3, 255, 256, 257, 258, 513, 514, 65537, 65538, 1<<32 + 1, 1<<32 + 2, ^uint(0), ^uint(0) - 253}
+				for _, e := range sel {
+					for _, w := range sel {
+						if e > 3 && w > 3 && (e+w)%5 != 0 {
+							continue
+						}
 						mc.SetEncoding(modbus.Endianness(e0), modbus.WordOrder(w0))
 						err := mc.SetEncoding(modbus.Endianness(e), modbus.WordOrder(w))
 						c := mc.VerifConfig()
